@@ -1276,11 +1276,204 @@ theorem arrayBuilder_two_fields_partial {cols1 cols2 : List String} {rows1 rows2
     · exact arrayExpected_values_wf c hc
     · exact arrayExpected_values_wf c hc
 
--- full statement, NOT proved (kept visible; not marked with the OPEN keyword because harness/c14.py runs at
--- level="proof" and is not this agent's file — see notes/agents/b7_c14.md): arrayBuilder_two_fields,
--- under the hypotheses of `arrayBuilder_two_fields_partial`:
---   ∃ out, arrayTriangleBuilder [F1, F2] [n1, n2] (some res) evalRes fe md = .ok out ∧
---     Spec.mergeSpec .full none (arrayExpected n1 …) (arrayExpected n2 …) out = true
--- (needs: the merge of two all-cumulative triangles returns; coordinates inside `arrayExpected` distinct)
+-- (the full statement `arrayBuilder_two_fields` is proved below: items (a) and (b) of the docstring above are
+-- discharged by `merge_cumulative_returns` and `arrayExpected_keys_nodup`)
+
+/-! ### the two-frame builder returns: general lemma, composed statement, closed instance -/
+
+theorem cellAtLast_mem {inc : Bool} {t : List Cell} {k : Coord} {x : Cell}
+    (h : Spec.cellAtLast inc t k = some x) : x ∈ t := by
+  unfold Spec.cellAtLast at h
+  exact (List.mem_filter.mp (List.mem_of_getLast? h)).1
+
+theorem merge_cumulative_returns {a b : List Cell} (ha : ∀ c ∈ a, c.kind = .cumulative)
+    (hb : ∀ c ∈ b, c.kind = .cumulative) : ∃ out, merge (some .full) none a b = .ok out := by
+  have hkm : kindMismatch a b = false := by
+    cases a with
+    | nil => rfl
+    | cons c _ =>
+      cases b with
+      | nil => rfl
+      | cons d _ => simp [kindMismatch, ha c (by simp), hb d (by simp)]
+  have hj : join (some .full) none a b = .ok (joinCore .full a b) := by
+    unfold join
+    simp [hkm, reduceOn, bind, Except.bind, pure, Except.pure]
+  have hlast := Bermuda.Properties.C10.join_pairs_last hj
+  unfold merge
+  simp only [hj, bind, Except.bind]
+  unfold Triangle.ofCells
+  have hk : kindsConsistent ((joinCore .full a b).filterMap mergeCellPair) = true := by
+    unfold kindsConsistent
+    have : (((joinCore .full a b).filterMap mergeCellPair).all (·.kind == .cumulative)) = true := by
+      rw [List.all_eq_true]
+      intro c hc
+      obtain ⟨p, hp, hpc⟩ := List.mem_filterMap.mp hc
+      obtain ⟨k, _, hpe⟩ := hlast p hp
+      simp only [Spec.sortedOn] at hpe
+      rcases p with ⟨p1, p2⟩
+      simp only [Prod.mk.injEq] at hpe
+      obtain ⟨e1, e2⟩ := hpe
+      cases p1 with
+      | none =>
+        cases p2 with
+        | none => simp [mergeCellPair] at hpc
+        | some y =>
+          simp only [mergeCellPair, Option.some.injEq] at hpc
+          subst hpc
+          simp [hb _ (cellAtLast_mem e2.symm)]
+      | some x =>
+        have hx := ha _ (cellAtLast_mem e1.symm)
+        cases p2 with
+        | none =>
+          simp only [mergeCellPair, Option.some.injEq] at hpc
+          subst hpc; simp [hx]
+        | some y =>
+          simp only [mergeCellPair, Option.some.injEq] at hpc
+          subst hpc; simp [hx]
+    rw [this]; simp
+  rw [if_pos hk]
+  exact ⟨_, rfl⟩
+
+theorem arrayExpected_cumulative {field : String} {md : Metadata} {res : Int} {fe : Bool} {lags : List Int}
+    {rows : List (Date × List Val)} : ∀ c ∈ arrayExpected field md res fe lags rows, c.kind = .cumulative := by
+  intro c hc
+  unfold arrayExpected at hc
+  obtain ⟨r, _, hc⟩ := List.mem_flatMap.mp hc
+  obtain ⟨lv, _, hc⟩ := List.mem_filterMap.mp hc
+  split at hc
+  · cases hc
+  · cases hc; rfl
+
+/-- **arrayBuilder_two_fields_returns**: under the hypotheses of `arrayBuilder_two_fields_partial` the builder
+RETURNS a triangle `out` (no class refusal in the join, none in the constructor: every cell is a
+`CumulativeCell`), `out` is the full-join merge of the two single-field triangles and satisfies
+`Spec.mergeSpecLast .full none`. (Item (a) of the `_partial` docstring is hereby discharged; still declared:
+(b) distinct coordinates inside one frame's triangle → `mergeSpec`, (c) three or more frames.) -/
+theorem arrayBuilder_two_fields_returns {cols1 cols2 : List String} {rows1 rows2 : List (Date × List Val)}
+    {n1 n2 : String} {md : Metadata} {res : Int} {evalRes : Option Int} {fe : Bool}
+    (h1 : RegFrame n1 md res (fe || (effectiveEvalResolution cols1 res evalRes).isSome)
+          (columnLags cols1 (effectiveEvalResolution cols1 res evalRes)) rows1)
+    (h2 : RegFrame n2 md res (fe || (effectiveEvalResolution cols2 res evalRes).isSome)
+          (columnLags cols2 (effectiveEvalResolution cols2 res evalRes)) rows2) :
+    ∃ out, arrayTriangleBuilder
+        [{ cols := cols1, rows := rows1.map fun r => (PeriodEntry.date r.1, r.2) },
+         { cols := cols2, rows := rows2.map fun r => (PeriodEntry.date r.1, r.2) }] [n1, n2] (some res) evalRes fe md =
+        .ok out ∧
+      Spec.mergeSpecLast .full none
+        (arrayExpected n1 md res (fe || (effectiveEvalResolution cols1 res evalRes).isSome)
+          (columnLags cols1 (effectiveEvalResolution cols1 res evalRes)) rows1)
+        (arrayExpected n2 md res (fe || (effectiveEvalResolution cols2 res evalRes).isSome)
+          (columnLags cols2 (effectiveEvalResolution cols2 res evalRes)) rows2) out = true := by
+  obtain ⟨hb, hs⟩ := arrayBuilder_two_fields_partial h1 h2
+  obtain ⟨out, hout⟩ := merge_cumulative_returns
+    (a := arrayExpected n1 md res (fe || (effectiveEvalResolution cols1 res evalRes).isSome)
+          (columnLags cols1 (effectiveEvalResolution cols1 res evalRes)) rows1)
+    (b := arrayExpected n2 md res (fe || (effectiveEvalResolution cols2 res evalRes).isSome)
+          (columnLags cols2 (effectiveEvalResolution cols2 res evalRes)) rows2)
+    arrayExpected_cumulative arrayExpected_cumulative
+  exact ⟨out, hb.trans hout, hs out hout⟩
+
+/-- two concrete one-quarter frames (period 2021-04, lag 0), fields `paid_loss` / `reported_loss` -/
+def exF1 : ArrayFrame := { cols := ["0"], rows := [(PeriodEntry.date ⟨2021, 4, 1⟩, [.flt 1])] }
+def exF2 : ArrayFrame := { cols := ["0"], rows := [(PeriodEntry.date ⟨2021, 4, 1⟩, [.int 2])] }
+
+/-- **closed instance** (kernel evaluation of the model; one coordinate, because the kernel cannot evaluate
+`List.mergeSort` on two or more cells): `array_triangle_builder([df1, df2], ["paid_loss", "reported_loss"],
+period_resolution=3, eval_resolution=3)` returns the one cell carrying BOTH fields. -/
+theorem arrayBuilder_two_fields_example :
+    arrayTriangleBuilder [exF1, exF2] ["paid_loss", "reported_loss"] (some 3) (some 3) true {} =
+      .ok [{ kind := .cumulative, ps := ⟨2021, 4, 1⟩, pe := ⟨2021, 6, 30⟩, ev := ⟨2021, 6, 30⟩,
+             values := [("paid_loss", .flt 1), ("reported_loss", .int 2)], md := {} }] := by
+  decide +kernel
+
+/-- … and the two frames of the instance lie in the domain of `arrayBuilder_two_fields_partial` /
+`arrayBuilder_two_fields_returns` (its `RegFrame` hypotheses, for these very arguments) -/
+theorem arrayBuilder_two_fields_example_domain :
+    RegFrame "paid_loss" {} 3 (true || (effectiveEvalResolution ["0"] 3 (some 3)).isSome)
+      (columnLags ["0"] (effectiveEvalResolution ["0"] 3 (some 3))) [(⟨2021, 4, 1⟩, [.flt 1])] ∧
+    RegFrame "reported_loss" {} 3 (true || (effectiveEvalResolution ["0"] 3 (some 3)).isSome)
+      (columnLags ["0"] (effectiveEvalResolution ["0"] 3 (some 3))) [(⟨2021, 4, 1⟩, [.int 2])] := by
+  constructor
+  · exact { res1 := by decide, first := by decide, asc := by simp, lagsAsc := by decide,
+            fromStart := (by intro h; cases h), dates := (by decide +kernel) }
+  · exact { res1 := by decide, first := by decide, asc := by simp, lagsAsc := by decide,
+            fromStart := (by intro h; cases h), dates := (by decide +kernel) }
+
+/-! ### distinct coordinates inside one frame; the two-frame builder fully composed -/
+
+theorem arrayExpected_prev_none {field : String} {md : Metadata} {res : Int} {fe : Bool} {lags : List Int}
+    {rows : List (Date × List Val)} : ∀ c ∈ arrayExpected field md res fe lags rows, c.prev = none := by
+  intro c hc
+  unfold arrayExpected at hc
+  obtain ⟨r, _, hc⟩ := List.mem_flatMap.mp hc
+  obtain ⟨lv, _, hc⟩ := List.mem_filterMap.mp hc
+  split at hc
+  · cases hc
+  · cases hc; rfl
+
+/-- distinct coordinates inside one frame's triangle -/
+theorem arrayExpected_keys_nodup {field : String} {md : Metadata} {res : Int} {fe : Bool} {lags : List Int}
+    {rows : List (Date × List Val)} (h : RegFrame field md res fe lags rows) (inc : Bool) :
+    ((arrayExpected field md res fe lags rows).map (joinKey inc)).Nodup := by
+  rw [List.nodup_iff_pairwise_ne, List.pairwise_map]
+  have hs : (arrayExpected field md res fe lags rows).Pairwise
+      (fun a b => (a ∈ arrayExpected field md res fe lags rows ∧ b ∈ arrayExpected field md res fe lags rows) ∧
+        Cell.cmp a b = .lt) := by
+    rw [List.pairwise_iff_getElem]
+    intro i j hi hj hij
+    exact ⟨⟨List.getElem_mem hi, List.getElem_mem hj⟩,
+      List.pairwise_iff_getElem.mp (expected_sorted h) i j hi hj hij⟩
+  refine hs.imp ?_
+  intro x y ⟨⟨hx, hy⟩, hlt⟩ hk
+  have px := arrayExpected_prev_none x hx
+  have py := arrayExpected_prev_none y hy
+  simp only [joinKey, px, py, ite_self, Coord.mk.injEq, and_true] at hk
+  obtain ⟨hmd, hps, hpe, hev⟩ := hk
+  have : Cell.cmp x y = Cell.cmp x x := by
+    simp only [Cell.cmp, compareLex, cmpOn, ← hmd, ← hps, ← hpe, ← hev, px, py]
+  rw [this, Std.ReflCmp.compare_self (cmp := Cell.cmp)] at hlt
+  cases hlt
+
+/-- **arrayBuilder_two_fields**: the two-frame builder, fully composed (the statement that was kept as a
+comment under `arrayBuilder_two_fields_partial`). For two `RegFrame`s and an explicit `period_resolution`,
+`array_triangle_builder([df1, df2], [n1, n2], …)` RETURNS a triangle `out` and `out` satisfies
+`Spec.mergeSpec .full none (arrayExpected n1 …) (arrayExpected n2 …)`: coordinates distinct; a coordinate of
+both frames carries the first frame's cell with the right-biased union of the two one-field value dicts, a
+coordinate of one frame only carries THE cell of that frame unchanged; every coordinate of either frame
+occurs. Pieces: `arrayBuilder_two_fields_partial` (builder = merge), `merge_cumulative_returns`,
+`arrayExpected_keys_nodup` (from `Frame.expected_sorted`), `Properties.C10.mergeSpec_of_merge`. Still declared:
+three or more frames; the variant with `period_resolution` inferred. -/
+theorem arrayBuilder_two_fields {cols1 cols2 : List String} {rows1 rows2 : List (Date × List Val)}
+    {n1 n2 : String} {md : Metadata} {res : Int} {evalRes : Option Int} {fe : Bool}
+    (h1 : RegFrame n1 md res (fe || (effectiveEvalResolution cols1 res evalRes).isSome)
+          (columnLags cols1 (effectiveEvalResolution cols1 res evalRes)) rows1)
+    (h2 : RegFrame n2 md res (fe || (effectiveEvalResolution cols2 res evalRes).isSome)
+          (columnLags cols2 (effectiveEvalResolution cols2 res evalRes)) rows2) :
+    ∃ out, arrayTriangleBuilder
+        [{ cols := cols1, rows := rows1.map fun r => (PeriodEntry.date r.1, r.2) },
+         { cols := cols2, rows := rows2.map fun r => (PeriodEntry.date r.1, r.2) }] [n1, n2] (some res) evalRes fe md =
+        .ok out ∧
+      Spec.mergeSpec .full none
+        (arrayExpected n1 md res (fe || (effectiveEvalResolution cols1 res evalRes).isSome)
+          (columnLags cols1 (effectiveEvalResolution cols1 res evalRes)) rows1)
+        (arrayExpected n2 md res (fe || (effectiveEvalResolution cols2 res evalRes).isSome)
+          (columnLags cols2 (effectiveEvalResolution cols2 res evalRes)) rows2) out = true := by
+  obtain ⟨hb, _⟩ := arrayBuilder_two_fields_partial h1 h2
+  obtain ⟨out, hout⟩ := merge_cumulative_returns
+    (a := arrayExpected n1 md res (fe || (effectiveEvalResolution cols1 res evalRes).isSome)
+          (columnLags cols1 (effectiveEvalResolution cols1 res evalRes)) rows1)
+    (b := arrayExpected n2 md res (fe || (effectiveEvalResolution cols2 res evalRes).isSome)
+          (columnLags cols2 (effectiveEvalResolution cols2 res evalRes)) rows2)
+    arrayExpected_cumulative arrayExpected_cumulative
+  refine ⟨out, hb.trans hout, ?_⟩
+  apply Bermuda.Properties.C10.mergeSpec_of_merge _ _ hout
+  · unfold Spec.joinHyp
+    simp only [Spec.onCells, Bool.and_eq_true]
+    exact ⟨Bermuda.nodupB_iff.mpr (arrayExpected_keys_nodup h1 _),
+      Bermuda.nodupB_iff.mpr (arrayExpected_keys_nodup h2 _)⟩
+  · intro c hc
+    rcases List.mem_append.mp hc with hc | hc
+    · exact arrayExpected_values_wf c hc
+    · exact arrayExpected_values_wf c hc
 
 end Bermuda.Properties.C14
